@@ -35,6 +35,26 @@ pub unsafe extern "C" fn getrandom(buf: *mut u8, len: usize, _flags: u32) -> isi
     len as isize
 }
 
+/// The process-wide clock. Client threads selected by the simulator read a clock that jumps forward; every
+/// other thread (driver, oracle, main) reads the real one. Exported like `getrandom` so that std's
+/// `Instant::now()` / `SystemTime::now()` resolve to it.
+///
+/// # Safety
+/// Called by std/libc with a valid pointer.
+#[no_mangle]
+pub unsafe extern "C" fn clock_gettime(clk: libc::clockid_t, ts: *mut libc::timespec) -> libc::c_int {
+    let r = libc::syscall(libc::SYS_clock_gettime, clk, ts) as libc::c_int;
+    if r == 0 && !ts.is_null() {
+        if let Some(off) = sim_clock_offset() {
+            let t = &mut *ts;
+            let total = t.tv_nsec as i64 + (off % 1_000_000_000);
+            t.tv_sec += (off / 1_000_000_000) as libc::time_t + (total / 1_000_000_000) as libc::time_t;
+            t.tv_nsec = (total % 1_000_000_000) as _;
+        }
+    }
+    r
+}
+
 const ORACLE_HASH_SEED: u64 = 0x0C0A_C1E0_0000_0001;
 const MAIN_HASH_SEED: u64 = 0x3A13_0000_0000_0001;
 const DEFAULT_SEED: u64 = 20261003;
@@ -299,6 +319,8 @@ fn run_episode(
         "key_digest": format!("{:016x}", GETRANDOM_DIGEST.load(Ordering::SeqCst)),
         "getrandom_calls": GETRANDOM_CALLS.load(Ordering::SeqCst),
         "getrandom_unowned": unowned,
+        "clock_reads_simulated": CLOCK_READS_SIMULATED.load(Ordering::SeqCst),
+        "clock_jumps_injected": CLOCK_JUMPS.load(Ordering::SeqCst),
         "hash_streams": hash_streams,
         "switches": switches,
         "switches_in_build": switches_in_build,
@@ -338,7 +360,10 @@ fn mode_worker(args: &[String]) -> i32 {
     let n_sys: u64 = arg_value(args, "--systematic-episodes").and_then(|s| s.parse().ok()).unwrap_or(0);
     let episode_seed = derive(verif_seed, &[tier_code(&tier), 1, index]);
     let want_sample = has_flag(args, "--sample");
-    let out = if index < n_sys {
+    let out = if index >= SCENARIO_BASE {
+        let runs = scenario_runs(index - SCENARIO_BASE, verif_seed);
+        run_episode(|r| runs.get(r).cloned(), want_sample, false)
+    } else if index < n_sys {
         // systematic stratum: this episode executes its slice of the systematic runs
         let all = systematic_runs(verif_seed);
         let per = (all.len() as u64 + n_sys - 1) / n_sys;
@@ -838,6 +863,24 @@ fn hashsweep_keys(tier: &str) -> Vec<(&'static str, Vec<Key>)> {
         }
     }
     worlds.push(("words over {a,b} up to length 3: all small sets x 5 configurations", k1));
+    // W4: long, mostly non-repeating test cases under repetition conversion: candidate sets of tens of thousands
+    // of substrings (hash-ordered inside the library). One key per (text, stream pair) so that they run in parallel.
+    {
+        let mut st = 0x1234_5678_9ABC_DEF0u64;
+        let alpha: Vec<char> = "abcdefghijklmnopqrstuvwxyz0123456789".chars().collect();
+        let mut k4 = vec![];
+        for n in if tier == "thorough" { vec![300usize, 450, 450, 520] } else { vec![300usize, 450] } {
+            let mut text = String::new();
+            for _ in 0..n {
+                text.push(alpha[(splitmix64(&mut st) % alpha.len() as u64) as usize]);
+            }
+            // a few genuine repetitions inside the noise
+            text.push_str("aaa");
+            text.insert_str(n / 2, "xyxyxy");
+            k4.push(Key { set: [text].into_iter().collect(), cfg: cfg_with(|c| c.repetitions = true) });
+        }
+        worlds.push(("long mostly non-repeating texts, repetition conversion", k4));
+    }
     if tier == "thorough" {
         // W3: all 4-element sets of words over {a,b} up to length 4, repetition conversion
         let w4 = words_over(&["a", "b"], 4);
@@ -979,6 +1022,9 @@ fn mode_run(args: &[String]) -> i32 {
     let max_wall: u64 = arg_value(args, "--max-wall-s").and_then(|s| s.parse().ok()).unwrap_or(if tier == "thorough" { 1500 } else { 100 });
     println!("simhist: VERIF_SEED={} tier={} episodes={} (systematic {}) jobs={}", verif_seed, tier, episodes, n_sys, jobs);
 
+    // scenario episodes first (the long ones should not be the last to start), then the numbered episodes
+    let n_scen: u64 = if has_flag(args, "--no-scenarios") { 0 } else { SCENARIOS };
+    let indices: Arc<Vec<u64>> = Arc::new((0..n_scen).map(|k| SCENARIO_BASE + k).chain(0..episodes).collect());
     let next = Arc::new(AtomicUsize::new(0));
     let results: Arc<Mutex<BTreeMap<u64, Value>>> = Arc::new(Mutex::new(BTreeMap::new()));
     let doubles: Arc<Mutex<Vec<(u64, String, String)>>> = Arc::new(Mutex::new(vec![]));
@@ -992,20 +1038,23 @@ fn mode_run(args: &[String]) -> i32 {
         let errors = errors.clone();
         let stop = stop.clone();
         let tier = tier.clone();
+        let indices = indices.clone();
         handles.push(std::thread::spawn(move || loop {
-            let i = next.fetch_add(1, Ordering::SeqCst) as u64;
-            if i >= episodes || stop.load(Ordering::SeqCst) {
+            let pos = next.fetch_add(1, Ordering::SeqCst);
+            if pos >= indices.len() || stop.load(Ordering::SeqCst) {
                 break;
             }
+            let i = indices[pos];
             if t0.elapsed().as_secs() > max_wall {
                 // wall-clock cap per batch: stop handing out new episodes (recorded in the evidence)
                 stop.store(true, Ordering::SeqCst);
                 break;
             }
             let sample = i >= n_sys && i < n_sys + 3;
-            let mut res = spawn_worker(verif_seed, &tier, i, n_sys, sample, 60);
+            let timeout_first = if i >= SCENARIO_BASE { 300 } else { 60 };
+            let mut res = spawn_worker(verif_seed, &tier, i, n_sys, sample, timeout_first);
             if res.is_err() {
-                res = spawn_worker(verif_seed, &tier, i, n_sys, sample, 180);
+                res = spawn_worker(verif_seed, &tier, i, n_sys, sample, 3 * timeout_first);
             }
             match res {
                 Ok(v) => {
@@ -1073,7 +1122,7 @@ fn mode_run(args: &[String]) -> i32 {
     let mut violations: Vec<(u64, Value, Value)> = vec![]; // (episode, violation, executed runs)
     for (i, v) in &results {
         for k in [
-            "runs", "clients", "events", "builds", "getrandom_calls", "getrandom_unowned", "hash_streams", "switches", "switches_in_build", "lock_handovers", "decisions", "schedule_fps",
+            "runs", "clients", "events", "builds", "getrandom_calls", "getrandom_unowned", "clock_reads_simulated", "clock_jumps_injected", "hash_streams", "switches", "switches_in_build", "lock_handovers", "decisions", "schedule_fps",
         ] {
             *agg.entry(k.to_string()).or_insert(0) += v[k].as_u64().unwrap_or(0);
         }
@@ -1304,6 +1353,7 @@ fn mode_run(args: &[String]) -> i32 {
             "episodes_planned": episodes,
             "stopped_at_wall_cap": stopped_early,
             "systematic_episodes": n_sys,
+            "scenario_episodes": n_scen,
             "runs": runs_total,
             "build_events_compared": builds_total,
             "runs_per_hour": (runs_total as f64 / wall * 3600.0) as u64,
@@ -1314,6 +1364,8 @@ fn mode_run(args: &[String]) -> i32 {
             "hash_key_streams": agg.get("hash_streams"),
             "getrandom_calls_served": agg.get("getrandom_calls"),
             "getrandom_calls_from_threads_not_started_by_the_simulator": agg.get("getrandom_unowned"),
+            "clock_seam": {"readings_of_the_simulated_clock_by_code_under_test": agg.get("clock_reads_simulated"), "jumps_injected": agg.get("clock_jumps_injected"),
+                           "note": "0 readings on the unchanged tree: grex reads no clock; the seam is armed on a quarter of the client threads"},
             "distinct_keys": key_table.len(),
             "keys_seen_in_more_than_one_process": cross_process_keys,
             "cross_process_mismatches": cross_process_mismatches,
@@ -1396,7 +1448,9 @@ fn mode_dump_episode(args: &[String]) -> i32 {
     let n_sys: u64 = arg_value(args, "--systematic-episodes").and_then(|s| s.parse().ok()).unwrap_or(0);
     let episode_seed = derive(verif_seed, &[tier_code(&tier), 1, index]);
     let mut specs: Vec<RunSpec> = vec![];
-    if index < n_sys {
+    if index >= SCENARIO_BASE {
+        specs = scenario_runs(index - SCENARIO_BASE, verif_seed);
+    } else if index < n_sys {
         let all = systematic_runs(verif_seed);
         let per = (all.len() as u64 + n_sys - 1) / n_sys;
         let lo = (index * per) as usize;
